@@ -239,7 +239,9 @@ Qed.
 Lemma bks_okcs n l : bks n l -> okcs l.
 Proof. intros H. eapply Forall_impl; [|exact H]. intros c Hc. unfold bk_ok in Hc. apply andb_true_iff in Hc. destruct Hc as [Hc _]. apply andb_true_iff in Hc. apply Hc. Qed.
 
-Definition sflag (f r x : bool) : bool := (f && negb r && negb x) || (negb f && negb r && x).
+(* the start requests of these runs: the original one (first run), the one re-issued by resume, and the
+   one issued by a rerun (reset on or off) *)
+Definition sflag (f r x : bool) : bool := (f && negb r && negb x) || (negb f && negb r && x) || (negb f && r).
 
 Definition plain_op (o : op) : bool :=
   match o with
@@ -560,6 +562,14 @@ Definition check_pending (p : list item) (ops : list op) : Prop := op_avail p op
 Definition rs_pending (n : nat) (p : list item) (ops : list op) : Prop :=
   exists tid, tid < n /\ (In (IStartTask tid false false true) p \/ op_avail p ops (OStartTask tid false false true)).
 
+(* a rerun request for the task is on its way: it is going to give the task a new action execution *)
+Definition rerun_pending (p : list item) (ops : list op) (tid : nat) : Prop :=
+  exists reset, In (IStartTask tid false true reset) p \/ op_avail p ops (OStartTask tid false true reset).
+(* what a RUNNING task is waiting for *)
+Definition run_witness (al : list arow) (p : list item) (ops : list op) (tid : nat) : Prop :=
+  (exists aid a, nth_error al aid = Some a /\ a_task a = tid /\ is_completed (a_state a) = false /\ act_pending p ops aid) \/
+  rerun_pending p ops tid.
+
 Definition incomplete_task (s : st) : Prop :=
   exists tid r, nth_error (tasks s) tid = Some r /\ is_completed (t_state r) = false.
 
@@ -577,8 +587,7 @@ Record WkNC (X : option nat) (s : st) (ops : list op) : Prop := {
   N_idle : forall tid r, X <> Some tid -> nth_error (tasks s) tid = Some r -> t_state r = IDLE ->
      start_pending (pend s) ops tid;
   N_running : forall tid r, X <> Some tid -> nth_error (tasks s) tid = Some r -> t_state r = RUNNING ->
-     exists aid a, nth_error (acts s) aid = Some a /\ a_task a = tid /\ is_completed (a_state a) = false /\
-                   act_pending (pend s) ops aid;
+     run_witness (acts s) (pend s) ops tid;
   N_acts : forall aid a, nth_error (acts s) aid = Some a -> a_task a < length (tasks s);
   N_items : forallb plain_item (pend s) = true;
   N_ops : forallb plain_op ops = true
@@ -610,6 +619,17 @@ Proof.
                                right; right; eapply op_avail_mono; eassumption].
 Qed.
 
+Lemma run_witness_mono al al' p ops p' ops' tid :
+  (forall aid a, nth_error al aid = Some a -> nth_error al' aid = Some a) ->
+  (forall x, In x p -> In x p') -> (forall x, In x ops -> op_avail p' ops' x) ->
+  run_witness al p ops tid -> run_witness al' p' ops' tid.
+Proof.
+  intros Ha Hp Ho [[aid [a [A1 [A2 [A3 A4]]]]]|[reset [H|H]]].
+  - left. exists aid, a. split; [apply Ha, A1|]. split; [exact A2|]. split; [exact A3|]. eapply act_pending_mono; eassumption.
+  - right. exists reset. left. apply Hp, H.
+  - right. exists reset. right. eapply op_avail_mono; eassumption.
+Qed.
+
 Lemma chk_mono s s' p ops p' ops' :
   (incomplete_task s -> incomplete_task s') -> length (tasks s) <= length (tasks s') ->
   (forall x, In x p -> In x p') -> (forall x, In x ops -> op_avail p' ops' x) ->
@@ -633,8 +653,7 @@ Proof.
   split.
   - constructor; cbn [add_pend wf_created wf_state backlog tasks acts pend]; try assumption.
     + intros tid r Hn Hr Hi. eapply start_pending_mono; [exact Hp|exact Ho|eapply H6; eassumption].
-    + intros tid r Hn Hr Hi. destruct (H7 tid r Hn Hr Hi) as [aid [a [A1 [A2 [A3 A4]]]]].
-      exists aid, a. repeat split; auto. eapply act_pending_mono; [exact Hp|exact Ho|exact A4].
+    + intros tid r Hn Hr Hi. eapply run_witness_mono; [intros aid a Ha; exact Ha|exact Hp|exact Ho|exact (H7 tid r Hn Hr Hi)].
     + rewrite forallb_app, H9. simpl. rewrite H10. reflexivity.
     + reflexivity.
   - cbn [add_pend wf_state pend]. intros Hw. eapply chk_mono; [| |exact Hp|exact Ho|exact (H11 Hw)]; auto.
@@ -687,6 +706,28 @@ Proof. intros [[H|H]|H]; [left; symmetry; exact H|right; left; exact H|right; ri
 Lemma op_avail_pend_mono p p' ops x : (forall i, In i p -> In i p') -> op_avail p ops x -> op_avail p' ops x.
 Proof. intros Hp. apply op_avail_mono; [exact Hp|intros y Hy; left; exact Hy]. Qed.
 
+Lemma run_witness_step al p o ops p' tid :
+  (forall i, In i p -> In i p') ->
+  match o with
+  | OStartTask t f r x => In (IStartTask t f r x) p'
+  | ORunAction a => In (IExec a) p'
+  | _ => True
+  end ->
+  run_witness al p (o :: ops) tid -> run_witness al p' ops tid.
+Proof.
+  intros Hp Ho [[aid [a [A1 [A2 [A3 A4]]]]]|[reset [H|H]]].
+  - left. exists aid, a. repeat split; auto. destruct A4 as [A|[[q A]|A]].
+    + left. apply Hp, A.
+    + right. left. exists q. apply Hp, A.
+    + apply op_avail_cons in A. destruct A as [A|A].
+      * subst o. left. exact Ho.
+      * right. right. eapply op_avail_pend_mono; [exact Hp|exact A].
+  - right. exists reset. left. apply Hp, H.
+  - right. exists reset. apply op_avail_cons in H. destruct H as [H|H].
+    + subst o. left. exact Ho.
+    + right. eapply op_avail_pend_mono; [exact Hp|exact H].
+Qed.
+
 Lemma run_op_W sp s o ops : Wk None s (o :: ops) -> Wk None (run_ops sp s [o]) ops.
 Proof.
   intros [[H1 H2 H3 H4 H5 H6 H7 H8 H9 H10] H11]. simpl in H10. apply andb_true_iff in H10. destruct H10 as [Ho H10].
@@ -702,12 +743,7 @@ Proof.
         -- apply op_avail_cons in H. destruct H as [H|H].
            ++ left. injection H as -> -> -> ->. exact Hlast.
            ++ right. eapply op_avail_pend_mono; [exact Hp|exact H].
-      * intros tid' r' Hn Hr Hi. destruct (H7 tid' r' Hn Hr Hi) as [aid [a [A1 [A2 [A3 A4]]]]].
-        exists aid, a. repeat split; auto. destruct A4 as [A|[[q A]|A]].
-        -- left. apply Hp, A.
-        -- right. left. exists q. apply Hp, A.
-        -- right. right. apply op_avail_cons in A. destruct A as [A|A]; [discriminate|].
-           eapply op_avail_pend_mono; [exact Hp|exact A].
+      * intros tid' r' Hn Hr Hi. eapply (run_witness_step _ _ (OStartTask tid f r x)); [exact Hp|exact Hlast|exact (H7 tid' r' Hn Hr Hi)].
       * rewrite forallb_app, H9. simpl. rewrite Ho. reflexivity.
     + cbn [add_pend wf_state pend tasks]. intros Hw. destruct (H11 Hw) as [H|[H|[tid' [Ht H]]]].
       * left. exact H.
@@ -724,13 +760,8 @@ Proof.
         -- left. apply Hp, H.
         -- apply op_avail_cons in H. destruct H as [H|H]; [discriminate|].
            right. eapply op_avail_pend_mono; [exact Hp|exact H].
-      * intros tid' r Hn Hr Hi. destruct (H7 tid' r Hn Hr Hi) as [aid' [a [A1 [A2 [A3 A4]]]]].
-        exists aid', a. repeat split; auto. destruct A4 as [A|[[q A]|A]].
-        -- left. apply Hp, A.
-        -- right. left. exists q. apply Hp, A.
-        -- apply op_avail_cons in A. destruct A as [A|A].
-           ++ left. injection A as ->. apply in_or_app. right. left. reflexivity.
-           ++ right. right. eapply op_avail_pend_mono; [exact Hp|exact A].
+      * intros tid' r Hn Hr Hi. eapply (run_witness_step _ _ (ORunAction aid)); [exact Hp| |exact (H7 tid' r Hn Hr Hi)].
+        apply in_or_app. right. left. reflexivity.
       * rewrite forallb_app, H9. reflexivity.
     + cbn [add_pend wf_state pend tasks]. intros Hw. destruct (H11 Hw) as [H|[H|[tid' [Ht H]]]].
       * left. exact H.
@@ -748,9 +779,7 @@ Proof.
       * intros tid' r Hn Hr Hi. destruct (H6 tid' r Hn Hr Hi) as [f' [r'' [x' [Hs [H|H]]]]]; exists f', r'', x'; (split; [exact Hs|]).
         -- left. exact H.
         -- apply op_avail_cons in H. destruct H as [H|H]; [discriminate|]. right. exact H.
-      * intros tid' r Hn Hr Hi. destruct (H7 tid' r Hn Hr Hi) as [aid' [a [A1 [A2 [A3 A4]]]]].
-        exists aid', a. repeat split; auto. destruct A4 as [A|[A|A]]; [left; exact A|right; left; exact A|].
-        apply op_avail_cons in A. destruct A as [A|A]; [discriminate|]. right. right. exact A.
+      * intros tid' r Hn Hr Hi. eapply (run_witness_step _ _ OCheck); [intros i Hi'; exact Hi'|exact I|exact (H7 tid' r Hn Hr Hi)].
     + intros Hw. left. eapply incomplete_task_frame; [exact F1|apply (Hr1 Hw)].
 Qed.
 
@@ -812,11 +841,13 @@ Proof.
   - constructor; cbn [set_pend wf_created wf_state backlog tasks acts pend]; try assumption.
     + intros tid r Hn Hr Hi. destruct (H6 tid r Hn Hr Hi) as [f' [r'' [x' [Hs [H|H]]]]]; exists f', r'', x'; (split; [exact Hs|]);
         [left; apply Hit; [intros q; discriminate|exact H]|right; apply Hoa, H].
-    + intros tid r Hn Hr Hi. destruct (H7 tid r Hn Hr Hi) as [aid [a [A1 [A2 [A3 A4]]]]].
-      exists aid, a. repeat split; auto. destruct A4 as [A|[[q A]|A]].
-      * left. apply Hit; [intros q; discriminate|exact A].
-      * right. left. exists q. apply Hit; [intros q'; discriminate|exact A].
-      * right. right. apply Hoa, A.
+    + intros tid r Hn Hr Hi. destruct (H7 tid r Hn Hr Hi) as [[aid [a [A1 [A2 [A3 A4]]]]]|[reset [A|A]]].
+      * left. exists aid, a. repeat split; auto. destruct A4 as [A|[[q A]|A]].
+        -- left. apply Hit; [intros q; discriminate|exact A].
+        -- right. left. exists q. apply Hit; [intros q'; discriminate|exact A].
+        -- right. right. apply Hoa, A.
+      * right. exists reset. left. apply Hit; [intros q; discriminate|exact A].
+      * right. exists reset. right. apply Hoa, A.
     + eapply forallb_sub; [exact Hsub|exact H9].
     + rewrite forallb_forall in H9. apply (H9 _ Hin).
   - cbn [set_pend wf_state pend tasks]. intros Hw. destruct (H11 Hw) as [H|[H|[tid [Ht H]]]]; [left; exact H|right; left; apply Hoa, H|].
@@ -839,9 +870,11 @@ Lemma drop_item_NC X' s it rest :
      it <> IStartTask tid f r' x) ->
   (forall aid a, nth_error (acts s) aid = Some a -> X' <> Some (a_task a) -> is_completed (a_state a) = false ->
      it <> IExec aid /\ forall r, it <> IResult aid r) ->
+  (forall tid r reset, X' <> Some tid -> nth_error (tasks s) tid = Some r -> t_state r = RUNNING ->
+     it <> IStartTask tid false true reset) ->
   WkNC None s [] -> WkNC X' (set_pend s rest) [].
 Proof.
-  intros Hne Hsplit Hsub Hst Hact [H1 H2 H3 H4 H5 H6 H7 H8 H9 H10].
+  intros Hne Hsplit Hsub Hst Hact Hrr [H1 H2 H3 H4 H5 H6 H7 H8 H9 H10].
   assert (Hoa : forall o, op_avail (pend s) [] o -> op_avail rest [] o) by (intros o; apply (op_avail_rest s it); assumption).
   assert (Hit : forall i, i <> it -> In i (pend s) -> In i rest).
   { intros i Hi Hin. destruct (Hsplit _ Hin) as [E|E]; [contradiction|exact E]. }
@@ -850,14 +883,16 @@ Proof.
   - intros tid r Hx Hn Hi. destruct (H6 tid r (Hnone tid) Hn Hi) as [f' [r'' [x' [Hs [H|H]]]]]; exists f', r'', x'; (split; [exact Hs|]);
       [left|right; apply Hoa, H].
     apply Hit; [|exact H]. intros E. apply (Hst tid r f' r'' x' Hx Hn Hi). symmetry. exact E.
-  - intros tid r Hx Hn Hi. destruct (H7 tid r (Hnone tid) Hn Hi) as [aid [a [A1 [A2 [A3 A4]]]]].
-    exists aid, a. repeat split; auto.
-    assert (Hxa : X' <> Some (a_task a)) by (rewrite A2; exact Hx).
-    destruct (Hact aid a A1 Hxa A3) as [B1 B2].
-    destruct A4 as [A|[[q A]|A]].
-    + left. apply Hit; [intros E; apply B1; symmetry; exact E|exact A].
-    + right. left. exists q. apply Hit; [intros E; apply (B2 q); symmetry; exact E|exact A].
-    + right. right. apply Hoa, A.
+  - intros tid r Hx Hn Hi. destruct (H7 tid r (Hnone tid) Hn Hi) as [[aid [a [A1 [A2 [A3 A4]]]]]|[reset [A|A]]].
+    + left. exists aid, a. repeat split; auto.
+      assert (Hxa : X' <> Some (a_task a)) by (rewrite A2; exact Hx).
+      destruct (Hact aid a A1 Hxa A3) as [B1 B2].
+      destruct A4 as [A|[[q A]|A]].
+      * left. apply Hit; [intros E; apply B1; symmetry; exact E|exact A].
+      * right. left. exists q. apply Hit; [intros E; apply (B2 q); symmetry; exact E|exact A].
+      * right. right. apply Hoa, A.
+    + right. exists reset. left. apply Hit; [|exact A]. intros E. apply (Hrr tid r reset Hx Hn Hi). symmetry. exact E.
+    + right. exists reset. right. apply Hoa, A.
   - eapply forallb_sub; [exact Hsub|exact H9].
 Qed.
 
@@ -939,11 +974,10 @@ Proof.
         assert (Hx : Some tid <> Some k) by congruence.
         eapply start_pending_mono; [intros y Hy; exact Hy| |exact (H6 k x Hx Hk Hxi)]. intros y [].
     + intros k x _ Hk Hxr. destruct (Nat.eq_dec k tid) as [->|Hne].
-      * exists aid, a. repeat split; auto. right. right. left. left. reflexivity.
+      * left. exists aid, a. repeat split; auto. right. right. left. left. reflexivity.
       * rewrite nth_error_set_nth_other in Hk by exact Hne.
         assert (Hx : Some tid <> Some k) by congruence.
-        destruct (H7 k x Hx Hk Hxr) as [aid' [b [A1 [A2 [A3 A4]]]]].
-        exists aid', b. repeat split; auto. eapply act_pending_mono; [intros y Hy; exact Hy| |exact A4]. intros y [].
+        eapply run_witness_mono; [exact Hold|intros y Hy; exact Hy| |exact (H7 k x Hx Hk Hxr)]. intros y [].
     + intros k b Hk.
       destruct (Nat.lt_ge_cases k (length (acts s))) as [Hl|Hl].
       * rewrite nth_error_app1 in Hk by exact Hl. eapply H8; exact Hk.
@@ -1000,8 +1034,7 @@ Proof.
   - intros k r _ Hk Hi. destruct (Nat.eq_dec k tid) as [->|Hne].
     + exfalso. apply Hxr. rewrite <- (G' r Hk). exact Hi.
     + rewrite G in Hk by exact Hne. assert (Hx' : Some tid <> Some k) by congruence.
-      destruct (H7 k r Hx' Hk Hi) as [aid [a [A1 [A2 [A3 A4]]]]]. exists aid, a. repeat split; auto.
-      eapply act_pending_mono; [exact Hp|exact Ho|exact A4].
+      eapply run_witness_mono; [intros aid a Ha; exact Ha|exact Hp|exact Ho|exact (H7 k r Hx' Hk Hi)].
 Qed.
 
 (* dispatching ok commands keeps the invariant: new tasks are IDLE with a registered start *)
@@ -1035,8 +1068,7 @@ Proof.
     + eapply start_pending_mono; [exact Hp|exact Ho|exact (H6 k r Hx Hold Hi)].
     + exists true, false, false. split; [reflexivity|]. right. left. apply in_or_app. right. exact Hin.
   - intros k r Hx Hk Hi. destruct (Hnew k r Hk) as [Hold|[Hidle _]]; [|congruence].
-    destruct (H7 k r Hx Hold Hi) as [aid [a [A1 [A2 [A3 A4]]]]]. exists aid, a. repeat split; auto.
-    eapply act_pending_mono; [exact Hp|exact Ho|exact A4].
+    eapply run_witness_mono; [intros aid a Ha; exact Ha|exact Hp|exact Ho|exact (H7 k r Hx Hold Hi)].
   - intros aid a Ha. rewrite app_length. specialize (H8 aid a Ha). lia.
   - rewrite forallb_app, H10, T4. reflexivity.
 Qed.
@@ -1096,9 +1128,9 @@ Section Complete.
 Variable sp : spec.
 Hypothesis Hnj : nojoin sp.
 
-Lemma complete_pre_shape t tid x : is_skipped x = false ->
+Lemma complete_pre_shape t tid x :
   match complete_pre sp t tid x with
-  | PreIgnored t1 => (t1 = t /\ is_completed (t_state (get_task (fst t) tid)) = true) \/
+  | PreIgnored t1 => (t1 = t /\ is_completed (t_state (get_task (fst t) tid)) = true /\ is_skipped x = false) \/
                      (wf_state (fst t) = PAUSED /\ same_but tid x (fst t) (fst t1) /\ snd t1 = snd t)
   | PreRaised t1 => same_but tid x (fst t) (fst t1) /\ snd t1 = snd t
   | PreCmds t1 cmds =>
@@ -1107,8 +1139,9 @@ Lemma complete_pre_shape t tid x : is_skipped x = false ->
       ((existsb is_run cmds = false /\ snd t1 = snd t ++ [OCheck]) \/ (existsb is_run cmds = true /\ snd t1 = snd t))
   end.
 Proof.
-  intros Hx. unfold complete_pre. rewrite Hx. cbn [negb]. rewrite andb_true_r.
-  destruct (is_completed (t_state (get_task (fst t) tid))) eqn:Ec; [left; split; reflexivity|].
+  unfold complete_pre.
+  destruct (is_completed (t_state (get_task (fst t) tid)) && negb (is_skipped x)) eqn:Ec;
+    [left; apply andb_true_iff in Ec; destruct Ec as [E1 E2]; apply negb_true_iff in E2; split; [reflexivity|split; assumption]|].
   set (s1 := task_set_state (fst t) tid x).
   assert (S1 : same_but tid x (fst t) s1).
   { unfold s1, task_set_state. apply same_but_upd; [right; reflexivity|reflexivity]. }
@@ -1172,18 +1205,18 @@ Proof.
 Qed.
 
 Lemma complete_task_W f s ops tid x :
-  Wk (Some tid) s ops -> is_completed x = true -> is_skipped x = false ->
+  WkNC (Some tid) s ops -> (is_skipped x = false -> wf_state s = RUNNING -> chk s (pend s) ops) -> is_completed x = true ->
   spec_size sp + length (backlog s) + 3 < f ->
   match complete_task sp f (s, ops) tid x with
   | (t1, FOk) => Wk None (fst t1) (snd t1)
   | (t1, FForce) => Wk None (force_fail (fst t1) tid) (snd t1)
   end.
 Proof.
-  intros [Hn Hchk] Hx Hsk Hf. rewrite complete_task_eq. destruct f as [|f]; [lia|].
-  pose proof (complete_pre_shape (s, ops) tid x Hsk) as Hsh.
+  intros Hn Hchk Hx Hf. rewrite complete_task_eq. destruct f as [|f]; [lia|].
+  pose proof (complete_pre_shape (s, ops) tid x) as Hsh.
   destruct (complete_pre sp (s, ops) tid x) as [t1|t1|t1 cmds].
-  - destruct Hsh as [[-> Hc]|[Hp [Hs Ho]]]; cbn [fst snd] in *.
-    + split; [eapply same_but_NC; [exact Hn|apply same_but_refl|exact Hc|auto|apply Hn]|exact Hchk].
+  - destruct Hsh as [[-> [Hc Hsk]]|[Hp [Hs Ho]]]; cbn [fst snd] in *.
+    + split; [eapply same_but_NC; [exact Hn|apply same_but_refl|exact Hc|auto|apply Hn]|exact (Hchk Hsk)].
     + rewrite Ho. split; [eapply same_but_NC; [exact Hn|exact Hs|exact Hx|auto|apply Hn]|].
       destruct Hs as [_ [B _]]. intros Hw. congruence.
   - destruct Hsh as [Hs Ho]. cbn [fst snd] in *. rewrite Ho. eapply force_fail_W; [exact Hn|exact Hs].
@@ -1221,8 +1254,65 @@ Proof.
   intros [H1 H2 H3 H4 H5 H6 H7 H8 H9 H10] Hp.
   constructor; try assumption.
   - intros tid r Hx Hn Hi. eapply start_pending_mono; [| |exact (H6 tid r Hx Hn Hi)]; [auto|intros y []].
-  - intros tid r Hx Hn Hi. destruct (H7 tid r Hx Hn Hi) as [aid [a [A1 [A2 [A3 A4]]]]]. exists aid, a. repeat split; auto.
-    eapply act_pending_mono; [| |exact A4]; [auto|intros y []].
+  - intros tid r Hx Hn Hi. eapply run_witness_mono; [intros aid a Ha; exact Ha| | |exact (H7 tid r Hx Hn Hi)]; [auto|intros y []].
+Qed.
+
+(* ------------------------------------------------------------ start_task for a rerun request *)
+Lemma run_witness_map al extra (g : arow -> arow) p ops tid :
+  (forall a, a_task (g a) = a_task a /\ a_state (g a) = a_state a) ->
+  run_witness al p ops tid -> run_witness (map g al ++ extra) p ops tid.
+Proof.
+  intros Hg [[aid [a [A1 [A2 [A3 A4]]]]]|H]; [|right; exact H].
+  left. exists aid, (g a). destruct (Hg a) as [G1 G2]. split.
+  - rewrite nth_error_app1 by (rewrite map_length; apply nth_error_Some; congruence). rewrite nth_error_map, A1. reflexivity.
+  - rewrite G1, G2. repeat split; assumption.
+Qed.
+
+Lemma start_rerun_W sp s tid r reset : nojoin sp -> WkNC (Some tid) s [] -> nth_error (tasks s) tid = Some r ->
+  Wk None (commit (check_affected sp (schedule_action
+     (reset_actions (upd_task s tid (t_set_processed (t_set_state r RUNNING) (if state_eqb (t_state r) RUNNING then t_processed r else false)))
+                    tid reset, []) tid) tid)) [].
+Proof.
+  intros Hnj [H1 H2 H3 H4 H5 H6 H7 H8 H9 H10] Hn.
+  rewrite nojoin_check_affected by exact Hnj.
+  assert (Hlt : tid < length (tasks s)) by (apply nth_error_Some; congruence).
+  set (r' := t_set_processed (t_set_state r RUNNING) (if state_eqb (t_state r) RUNNING then t_processed r else false)).
+  set (g := fun a : arow => if Nat.eqb (a_task a) tid &&
+                         (reset || (a_accepted a && (state_eqb (a_state a) ERROR || state_eqb (a_state a) CANCELLED)))
+                      then mkArow (a_task a) (a_state a) false else a).
+  assert (Hg : forall a, a_task (g a) = a_task a /\ a_state (g a) = a_state a).
+  { intros a. unfold g. destruct (_ && _); split; reflexivity. }
+  unfold schedule_action, reset_actions. cbn [fst snd app upd_task acts tasks wf_created wf_state backlog calls pend uids].
+  fold g. rewrite map_length. set (a := mkArow tid RUNNING false). set (aid := length (acts s)).
+  match goal with |- Wk None (commit (?s2, ?o)) [] => change (Wk None (commit (s2, o)) []); apply commit_W end.
+  assert (Hnew : nth_error (map g (acts s) ++ [a]) aid = Some a).
+  { unfold aid. rewrite nth_error_app2 by (rewrite map_length; lia). rewrite map_length, Nat.sub_diag. reflexivity. }
+  split.
+  - constructor; cbn [add_act wf_created wf_state backlog tasks acts pend]; rewrite ?set_nth_length; try assumption.
+    + intros k x Hk. destruct (Nat.eq_dec k tid) as [->|Hne].
+      * rewrite nth_error_set_nth_same in Hk by exact Hlt. inversion Hk; subst. right. right. reflexivity.
+      * rewrite nth_error_set_nth_other in Hk by exact Hne. eapply H5; exact Hk.
+    + intros k x _ Hk Hxi. destruct (Nat.eq_dec k tid) as [->|Hne].
+      * rewrite nth_error_set_nth_same in Hk by exact Hlt. inversion Hk; subst. discriminate Hxi.
+      * rewrite nth_error_set_nth_other in Hk by exact Hne.
+        assert (Hx : Some tid <> Some k) by congruence.
+        eapply start_pending_mono; [intros y Hy; exact Hy| |exact (H6 k x Hx Hk Hxi)]. intros y [].
+    + intros k x _ Hk Hxr. destruct (Nat.eq_dec k tid) as [->|Hne].
+      * left. exists aid, a. repeat split; auto. right. right. left. left. reflexivity.
+      * rewrite nth_error_set_nth_other in Hk by exact Hne.
+        assert (Hx : Some tid <> Some k) by congruence.
+        eapply run_witness_mono; [intros aid0 a0 Ha0; exact Ha0|intros y Hy; exact Hy| |apply (run_witness_map _ [a] g _ _ _ Hg (H7 k x Hx Hk Hxr))].
+        intros y [].
+    + intros k b Hk.
+      destruct (Nat.lt_ge_cases k (length (acts s))) as [Hl|Hl].
+      * rewrite nth_error_app1 in Hk by (rewrite map_length; exact Hl). rewrite nth_error_map in Hk.
+        destruct (nth_error (acts s) k) as [b0|] eqn:Eb; [|discriminate]. cbn in Hk. injection Hk as <-.
+        destruct (Hg b0) as [G1 _]. rewrite G1. eapply H8; exact Eb.
+      * rewrite nth_error_app2 in Hk by (rewrite map_length; exact Hl). rewrite map_length in Hk.
+        destruct (k - length (acts s)) as [|m]; simpl in Hk.
+        -- inversion Hk; subst. exact Hlt.
+        -- destruct m; discriminate.
+  - intros _. left. exists tid, r'. split; [apply nth_error_set_nth_same; exact Hlt|reflexivity].
 Qed.
 
 Section Events.
@@ -1239,11 +1329,21 @@ Proof.
   assert (Hne : forall q, it <> IPtq q) by (intros; discriminate).
   assert (Hact : forall X' aid a, nth_error (acts s) aid = Some a -> X' <> Some (a_task a) -> is_completed (a_state a) = false ->
             it <> IExec aid /\ forall r, it <> IResult aid r) by (intros; split; intros; discriminate).
+  (* dropping the request keeps the invariant for every task but tid ... *)
+  assert (Hexc : WkNC (Some tid) (set_pend s rest) []).
+  { apply (drop_item_NC (Some tid) s it rest Hne Hsplit Hsub); [|apply Hact| |exact Hn].
+    - intros k r1 f' r' x' Hx _ _ E. injection E as E1. congruence.
+    - intros k r1 reset Hx _ _ E. injection E as E1. congruence. }
+  (* ... and for tid too when the request was not what tid was waiting for *)
+  assert (Hall : (forall r0, nth_error (tasks s) tid = Some r0 -> t_state r0 <> IDLE /\ (t_state r0 = RUNNING -> f = false -> r = true -> False)) ->
+                 WkNC None (set_pend s rest) []).
+  { intros Hq. apply (drop_item_NC None s it rest Hne Hsplit Hsub); [|apply Hact| |exact Hn].
+    - intros k r1 f' r' x' _ Hk Hi E. injection E as E1. subst k. destruct (Hq r1 Hk) as [Q _]. contradiction.
+    - intros k r1 reset _ Hk Hi E. injection E as E1 E2 E3. subst k. destruct (Hq r1 Hk) as [_ Q]. apply (Q Hi); congruence. }
   unfold do_start_task. cbn [set_pend tasks].
   destruct (Nat.leb (length (tasks s)) tid) eqn:El.
   - cbn [fst]. apply Nat.leb_le in El. split.
-    + apply (drop_item_NC None s it rest Hne Hsplit Hsub); [|apply Hact|exact Hn].
-      intros k r0 f' r' x' _ Hk _ E. injection E as E1. assert (k < length (tasks s)) by (apply nth_error_Some; congruence). lia.
+    + apply Hall. intros r0 Hk. assert (tid < length (tasks s)) by (apply nth_error_Some; congruence). lia.
     + cbn [set_pend wf_state pend]. intros Hw. apply (chk_drop s it rest Hne Hsplit); [|exact (Hchk Hw)].
       intros k Hk E. injection E as E1. lia.
   - apply Nat.leb_gt in El.
@@ -1251,27 +1351,34 @@ Proof.
     unfold get_task. cbn [set_pend tasks]. rewrite (nth_error_nth' _ _ dummy_trow _ En).
     assert (Hstart : t_state r0 = IDLE ->
       Wk None (commit (check_affected sp (schedule_action (task_set_state (set_pend s rest) tid RUNNING, []) tid) tid)) []).
-    { intros Hidle. apply (start_new_W sp _ tid r0 Hnj); [|exact En|exact Hidle].
-      apply (drop_item_NC (Some tid) s it rest Hne Hsplit Hsub); [|apply Hact|exact Hn].
-      intros k r1 f' r' x' Hx _ _ E. injection E as E1. congruence. }
-    assert (Hskip : is_idle (t_state r0) = false -> WkNC None (set_pend s rest) []).
-    { intros Ei. apply (drop_item_NC None s it rest Hne Hsplit Hsub); [|apply Hact|exact Hn].
-      intros k r1 f' r' x' _ Hk Hi E. injection E as E1. rewrite <- E1 in Hk. rewrite En in Hk. injection Hk as Hk.
-      rewrite <- Hk in Hi. rewrite Hi in Ei. discriminate. }
+    { intros Hidle. apply (start_new_W sp _ tid r0 Hnj); [exact Hexc|exact En|exact Hidle]. }
     assert (Hidle_eq : is_idle (t_state r0) = true -> t_state r0 = IDLE)
       by (destruct (t_state r0); intros E; try discriminate E; reflexivity).
+    assert (Hchk0 : (forall k, it <> IStartTask k false false true) -> wf_state (set_pend s rest) = RUNNING -> chk (set_pend s rest) rest []).
+    { intros Hd Hw. apply (chk_drop s it rest Hne Hsplit); [intros k _; apply Hd|exact (Hchk Hw)]. }
     destruct f, r, x; try discriminate Hfl; cbn [negb andb].
     + (* the original request *)
       destruct (is_idle (t_state r0)) eqn:Ei; cbn [fst]; [apply Hstart, Hidle_eq; reflexivity|].
       rewrite nojoin_check_affected by exact Hnj. unfold commit. cbn [fst snd].
-      split; [apply Hskip; reflexivity|].
-      cbn [set_pend wf_state pend]. intros Hw. apply (chk_drop s it rest Hne Hsplit); [|exact (Hchk Hw)].
-      intros k _ E. discriminate E.
+      split; [|apply Hchk0; intros k E; discriminate E].
+      apply Hall. intros r1 Hk. injection Hk as <-. split; [intros E; rewrite E in Ei; discriminate|intros _ E; discriminate E].
+    + (* a rerun request, reset on *)
+      destruct (state_eqb (t_state r0) SUCCESS) eqn:Es; cbn [fst].
+      * split; [|apply Hchk0; intros k E; discriminate E].
+        apply Hall. intros r1 Hk. injection Hk as <-.
+        split; intros E; try intros _ _; rewrite E in Es; discriminate.
+      * apply (start_rerun_W sp _ tid r0 true Hnj Hexc En).
+    + (* a rerun request, reset off *)
+      destruct (state_eqb (t_state r0) SUCCESS) eqn:Es; cbn [fst].
+      * split; [|apply Hchk0; intros k E; discriminate E].
+        apply Hall. intros r1 Hk. injection Hk as <-.
+        split; intros E; try intros _ _; rewrite E in Es; discriminate.
+      * apply (start_rerun_W sp _ tid r0 false Hnj Hexc En).
     + (* a request issued by resume *)
       destruct (is_idle (t_state r0)) eqn:Ei; cbn [negb fst]; [apply Hstart, Hidle_eq; reflexivity|].
       change (Wk None (commit (set_pend s rest, [OCheck])) []). apply commit_W.
-      split; [apply NC_ops_mono; [apply Hskip; reflexivity|reflexivity]|].
-      intros _. right. left. left. left. reflexivity.
+      split; [apply NC_ops_mono; [|reflexivity]|intros _; right; left; left; left; reflexivity].
+      apply Hall. intros r1 Hk. injection Hk as <-. split; [intros E; rewrite E in Ei; discriminate|intros _ _ E; discriminate E].
 Qed.
 
 Lemma fire_exec_W s aid rest c res :
@@ -1289,13 +1396,15 @@ Proof.
   - constructor; cbn [add_pend set_calls set_pend wf_created wf_state backlog tasks acts pend]; try assumption.
     + intros tid r Hx Hn Hi. destruct (H6 tid r Hx Hn Hi) as [f' [r'' [x' [Hs [H|H]]]]]; exists f', r'', x'; (split; [exact Hs|]);
         [left; apply Hit; [discriminate|exact H]|right; apply Hoa, H].
-    + intros tid r Hx Hn Hi. destruct (H7 tid r Hx Hn Hi) as [aid' [a [A1 [A2 [A3 A4]]]]].
-      exists aid', a. repeat split; auto. destruct A4 as [A|[[q A]|A]].
-      * destruct (Nat.eq_dec aid' aid) as [->|Hd].
-        -- right. left. exists res. apply in_or_app. right. left. reflexivity.
-        -- left. apply Hit; [intros E; inversion E; contradiction|exact A].
-      * right. left. exists q. apply Hit; [discriminate|exact A].
-      * right. right. apply Hoa, A.
+    + intros tid r Hx Hn Hi. destruct (H7 tid r Hx Hn Hi) as [[aid' [a [A1 [A2 [A3 A4]]]]]|[reset [A|A]]].
+      * left. exists aid', a. repeat split; auto. destruct A4 as [A|[[q A]|A]].
+        -- destruct (Nat.eq_dec aid' aid) as [->|Hd].
+           ++ right. left. exists res. apply in_or_app. right. left. reflexivity.
+           ++ left. apply Hit; [intros E; inversion E; contradiction|exact A].
+        -- right. left. exists q. apply Hit; [discriminate|exact A].
+        -- right. right. apply Hoa, A.
+      * right. exists reset. left. apply Hit; [discriminate|exact A].
+      * right. exists reset. right. apply Hoa, A.
     + rewrite forallb_app. rewrite (forallb_sub _ _ _ Hsub H9). reflexivity.
   - cbn [add_pend set_calls set_pend wf_state pend tasks]. intros Hw. destruct (H11 Hw) as [H|[H|[tid [Ht H]]]].
     + left. exact H.
@@ -1309,8 +1418,8 @@ Lemma upd_act_NC tid s aid a x :
 Proof.
   intros [H1 H2 H3 H4 H5 H6 H7 H8 H9 H10] Ha Ht.
   constructor; cbn [upd_act wf_created wf_state backlog tasks acts pend]; try assumption.
-  - intros k r Hx Hk Hi. destruct (H7 k r Hx Hk Hi) as [aid' [b [A1 [A2 [A3 A4]]]]].
-    exists aid', b. repeat split; auto. rewrite nth_error_set_nth_other; [exact A1|].
+  - intros k r Hx Hk Hi. destruct (H7 k r Hx Hk Hi) as [[aid' [b [A1 [A2 [A3 A4]]]]]|Hre]; [|right; exact Hre].
+    left. exists aid', b. repeat split; auto. rewrite nth_error_set_nth_other; [exact A1|].
     intros ->. rewrite Ha in A1. inversion A1; subst. congruence.
   - intros k b Hk. destruct (Nat.eq_dec k aid) as [->|Hd].
     + apply nth_error_set_nth_eq in Hk. subst b. cbn. rewrite <- Ht. eapply H8; exact Ha.
@@ -1328,30 +1437,31 @@ Proof.
   assert (Hne : forall q, it <> IPtq q) by (intros; discriminate).
   assert (Hst : forall X' tid r f r' x, X' <> Some tid -> nth_error (tasks s) tid = Some r -> t_state r = IDLE ->
             it <> IStartTask tid f r' x) by (intros; discriminate).
+  assert (Hrr : forall X' tid r reset, X' <> Some tid -> nth_error (tasks s) tid = Some r -> t_state r = RUNNING ->
+            it <> IStartTask tid false true reset) by (intros; discriminate).
   assert (Hchk0 : wf_state s0 = RUNNING -> chk s0 (pend s0) []).
   { intros Hw. apply (chk_drop s it rest Hne Hsplit); [intros; discriminate|exact (Hchk Hw)]. }
   unfold do_result. change (acts s0) with (acts s).
   destruct (Nat.leb (length (acts s)) aid) eqn:El.
   - apply Nat.leb_le in El. split; [|exact Hchk0].
-    apply (drop_item_NC None s it rest Hne Hsplit Hsub); [apply Hst| |exact Hn].
+    apply (drop_item_NC None s it rest Hne Hsplit Hsub); [apply Hst| |apply Hrr|exact Hn].
     intros k a Hk _ _. split; [discriminate|]. intros r E. injection E as E1 E2.
     assert (k < length (acts s)) by (apply nth_error_Some; congruence). lia.
   - apply Nat.leb_gt in El.
     destruct (nth_error (acts s) aid) as [a|] eqn:Ea; [|apply nth_error_None in Ea; lia].
     unfold get_act. change (acts s0) with (acts s). rewrite (nth_error_nth' _ _ dummy_arow _ Ea).
     destruct (is_completed (a_state a)) eqn:Ec.
-    + split; [|exact Hchk0]. apply (drop_item_NC None s it rest Hne Hsplit Hsub); [apply Hst| |exact Hn].
+    + split; [|exact Hchk0]. apply (drop_item_NC None s it rest Hne Hsplit Hsub); [apply Hst| |apply Hrr|exact Hn].
       intros k b Hk _ Hb. split; [discriminate|]. intros r E. injection E as E1 E2. rewrite <- E1 in Hk. rewrite Ea in Hk. injection Hk as Hk. congruence.
     + cbv zeta. set (x := state_of_outcome res). set (tid := a_task a).
       destruct (state_of_outcome_ok res) as [Hx Hsk]. fold x in Hx, Hsk.
       assert (W0 : WkNC (Some tid) s0 []).
-      { apply (drop_item_NC (Some tid) s it rest Hne Hsplit Hsub); [apply Hst| |exact Hn].
+      { apply (drop_item_NC (Some tid) s it rest Hne Hsplit Hsub); [apply Hst| |apply Hrr|exact Hn].
         intros k b Hk Hxk Hb. split; [discriminate|]. intros r E. injection E as E1 E2. rewrite <- E1 in Hk. rewrite Ea in Hk.
         injection Hk as Hk. apply Hxk. unfold tid. rewrite Hk. reflexivity. }
       assert (W1 : WkNC (Some tid) (upd_act s0 aid (mkArow tid x true)) []) by (apply (upd_act_NC tid s0 aid a x W0 Ea eq_refl)).
       set (s1 := upd_act s0 aid (mkArow tid x true)) in *.
-      assert (W1' : Wk (Some tid) s1 []) by (split; [exact W1|exact Hchk0]).
-      pose proof (complete_task_W sp Hnj (FUEL sp s1) s1 [] tid x W1' Hx Hsk) as Hc.
+      pose proof (complete_task_W sp Hnj (FUEL sp s1) s1 [] tid x W1 (fun _ => Hchk0) Hx) as Hc.
       assert (Hfuel : spec_size sp + length (backlog s1) + 3 < FUEL sp s1) by (unfold FUEL; lia).
       specialize (Hc Hfuel).
       destruct (complete_task sp (FUEL sp s1) (s1, []) tid x) as [t1 fl]. destruct fl.
@@ -1551,6 +1661,130 @@ Proof.
 Qed.
 End Resume.
 
+(* ================================================================= operator events: rerun, skip *)
+Lemma rerun_task_NC s tid r r' reset :
+  WkNC None s [] -> nth_error (tasks s) tid = Some r -> is_completed (t_state r) = true -> t_state r' = RUNNING ->
+  WkNC None (upd_task s tid r') [OStartTask tid false true reset].
+Proof.
+  intros [H1 H2 H3 H4 H5 H6 H7 H8 H9 H10] Hn Hc Hr.
+  assert (Hlt : tid < length (tasks s)) by (apply nth_error_Some; congruence).
+  assert (Hnone : forall n : nat, None <> Some n) by (intros; discriminate).
+  constructor; cbn [upd_task wf_created wf_state backlog tasks acts pend]; rewrite ?set_nth_length; try assumption.
+  - intros k x Hk. destruct (Nat.eq_dec k tid) as [->|Hne].
+    + rewrite nth_error_set_nth_same in Hk by exact Hlt. injection Hk as <-. right. right. exact Hr.
+    + rewrite nth_error_set_nth_other in Hk by exact Hne. eapply H5; exact Hk.
+  - intros k x Hx Hk Hi. destruct (Nat.eq_dec k tid) as [->|Hne].
+    + rewrite nth_error_set_nth_same in Hk by exact Hlt. injection Hk as <-. rewrite Hr in Hi. discriminate.
+    + rewrite nth_error_set_nth_other in Hk by exact Hne.
+      eapply start_pending_mono; [intros y Hy; exact Hy| |exact (H6 k x Hx Hk Hi)]. intros y [].
+  - intros k x Hx Hk Hi. destruct (Nat.eq_dec k tid) as [->|Hne].
+    + right. exists reset. right. left. left. reflexivity.
+    + rewrite nth_error_set_nth_other in Hk by exact Hne.
+      eapply run_witness_mono; [intros a0 b0 Hb; exact Hb|intros y Hy; exact Hy| |exact (H7 k x Hx Hk Hi)]. intros y [].
+Qed.
+
+Lemma rearrange_single_existing tid a b : rearrange [CRunExisting tid a b] = [CRunExisting tid a b].
+Proof. reflexivity. Qed.
+Lemma rearrange_single_skip tid : rearrange [CSkip tid] = [CSkip tid].
+Proof. reflexivity. Qed.
+
+Section Rerun.
+Variable sp : spec.
+Hypothesis Hnj : nojoin sp.
+
+(* the state in which continue_workflow dispatches: RUNNING again, triggers of the task forgotten, completed
+   tasks marked processed *)
+Lemma restart_frame s tid : Wk None s [] -> backlog s = [] ->
+  WkNC None (mark_processed (upd_task (set_wf_state s RUNNING) tid (t_set_trig (get_task (set_wf_state s RUNNING) tid) []))) [].
+Proof.
+  intros [Hn _] Hb.
+  eapply (NC_frame None s); [exact Hn|exact (N_created _ _ _ Hn)|reflexivity| |intros _; exact Hb|reflexivity|reflexivity| |].
+  - cbn. rewrite Hb. constructor.
+  - cbn. rewrite map_length, set_nth_length. reflexivity.
+  - intros k r' Hk. destruct (mark_processed_tasks _ k r' Hk) as [r1 [Hr1 E1]]. cbn [upd_task set_wf_state tasks] in Hr1.
+    destruct (Nat.eq_dec k tid) as [->|Hne].
+    + destruct (nth_error (tasks s) tid) as [r0|] eqn:E0.
+      * exists r0. split; [reflexivity|]. rewrite <- E1.
+        apply nth_error_set_nth_eq in Hr1. subst r1. unfold get_task. cbn [set_wf_state tasks].
+        rewrite (nth_error_nth' _ _ dummy_trow _ E0). reflexivity.
+      * exfalso. assert (Hlen : tid < length (set_nth tid (t_set_trig (get_task (set_wf_state s RUNNING) tid) []) (tasks s)))
+          by (apply nth_error_Some; congruence). rewrite set_nth_length in Hlen. apply nth_error_None in E0. lia.
+    + rewrite nth_error_set_nth_other in Hr1 by exact Hne. exists r1. split; [exact Hr1|exact E1].
+Qed.
+
+Lemma rerun_W s tid reset : Wk None s [] ->
+  tid < length (tasks s) -> t_state (get_task s tid) = ERROR -> backlog s = [] ->
+  Wk None (fst (step sp s (ERerun tid reset))) [].
+Proof.
+  intros Hw Hlt Herr Hb. pose proof Hw as [Hn Hchk]. unfold step. rewrite (N_created _ _ _ Hn). cbn [negb].
+  assert (El : Nat.leb (length (tasks s)) tid = false) by (apply Nat.leb_gt; exact Hlt). rewrite El.
+  pose proof (N_live _ _ _ Hn) as Hl.
+  destruct (state_eqb (wf_state s) PAUSED) eqn:Ep; [exact Hw|].
+  destruct (wf_set_state s RUNNING) as [s1|] eqn:Es; [|exact Hw].
+  apply wf_set_state_inv in Es. subst s1.
+  pose proof (restart_frame s tid Hw Hb) as N'.
+  set (s' := mark_processed (upd_task (set_wf_state s RUNNING) tid (t_set_trig (get_task (set_wf_state s RUNNING) tid) []))) in *.
+  unfold continue_workflow, continue_workflow_cmds. cbn [filter fst snd]. fold s'.
+  assert (Hbl : backlog s' = []) by exact Hb.
+  destruct (nth_error (tasks s') tid) as [r|] eqn:Er.
+  2:{ exfalso. apply nth_error_None in Er. unfold s' in Er. cbn in Er. rewrite map_length, set_nth_length in Er. lia. }
+  assert (Hre : t_state r = ERROR).
+  { destruct (mark_processed_tasks _ tid r Er) as [r1 [Hr1 E1]]. cbn [upd_task set_wf_state tasks] in Hr1.
+    apply nth_error_set_nth_eq in Hr1. subst r1. rewrite <- E1. exact Herr. }
+  assert (Ed : dispatch sp (FUEL sp s') (s', []) [CRunExisting tid reset true] =
+               ((upd_task s' tid (t_set_processed (t_set_state r RUNNING) false), [OStartTask tid false true reset]), FOk)).
+  { rewrite dispatch_eq. assert (Hf : exists f, FUEL sp s' = S (S (S f))).
+    { exists (4 * (length sp + spec_size sp + length (tasks s') + length (backlog s')) + 13 + length (tasks s') * spec_size sp). unfold FUEL. lia. }
+    destruct Hf as [f ->]. cbv zeta. cbn [fst]. rewrite Hbl, rearrange_single_existing.
+    rewrite process_cmds_eq. cbn [fst]. change (wf_state s') with RUNNING.
+    change (is_completed RUNNING) with false. change (state_eqb RUNNING PAUSED) with false. cbv iota.
+    rewrite process_cmds_eq. unfold run_existing_cmd. cbn [fst snd]. unfold get_task. rewrite (nth_error_nth' _ _ dummy_trow _ Er), Hre.
+    reflexivity. }
+  destruct (backlog s'); rewrite Ed; cbn [fst snd].
+  - rewrite no_waiting_refresh.
+    + apply commit_W. split; [eapply rerun_task_NC; [exact N'|exact Er|rewrite Hre; reflexivity|reflexivity]|].
+      intros _. left. exists tid, (t_set_processed (t_set_state r RUNNING) false). split; [|reflexivity].
+      cbn [upd_task tasks]. apply nth_error_set_nth_same. apply nth_error_Some. congruence.
+    + apply (N_states _ _ _ (rerun_task_NC s' tid r (t_set_processed (t_set_state r RUNNING) false) reset N' Er ltac:(rewrite Hre; reflexivity) eq_refl)).
+  - rewrite no_waiting_refresh.
+    + apply commit_W. split; [eapply rerun_task_NC; [exact N'|exact Er|rewrite Hre; reflexivity|reflexivity]|].
+      intros _. left. exists tid, (t_set_processed (t_set_state r RUNNING) false). split; [|reflexivity].
+      cbn [upd_task tasks]. apply nth_error_set_nth_same. apply nth_error_Some. congruence.
+    + apply (N_states _ _ _ (rerun_task_NC s' tid r (t_set_processed (t_set_state r RUNNING) false) reset N' Er ltac:(rewrite Hre; reflexivity) eq_refl)).
+Qed.
+
+Lemma skip_W s tid : Wk None s [] -> tid < length (tasks s) -> backlog s = [] ->
+  Wk None (fst (step sp s (ESkipTask tid))) [].
+Proof.
+  intros Hw Hlt Hb. pose proof Hw as [Hn Hchk]. unfold step. rewrite (N_created _ _ _ Hn). cbn [negb].
+  assert (El : Nat.leb (length (tasks s)) tid = false) by (apply Nat.leb_gt; exact Hlt). rewrite El.
+  destruct (state_eqb (wf_state s) PAUSED) eqn:Ep; [exact Hw|].
+  destruct (wf_set_state s RUNNING) as [s1|] eqn:Es; [|exact Hw].
+  apply wf_set_state_inv in Es. subst s1.
+  pose proof (restart_frame s tid Hw Hb) as N'.
+  set (s' := mark_processed (upd_task (set_wf_state s RUNNING) tid (t_set_trig (get_task (set_wf_state s RUNNING) tid) []))) in *.
+  unfold continue_workflow, continue_workflow_cmds. cbn [filter fst snd]. fold s'.
+  assert (Hbl : backlog s' = []) by exact Hb.
+  assert (Ed : dispatch sp (FUEL sp s') (s', []) [CSkip tid] =
+               match complete_task sp (FUEL sp s' - 2) (s', []) tid SKIPPED with (t2, FOk) => (t2, FOk) | r => r end).
+  { rewrite dispatch_eq. assert (Hf : exists f, FUEL sp s' = S (S f)).
+    { exists (4 * (length sp + spec_size sp + length (tasks s') + length (backlog s')) + 14 + length (tasks s') * spec_size sp). unfold FUEL. lia. }
+    destruct Hf as [f Ef]. rewrite Ef. cbv zeta. cbn [fst]. rewrite Hbl, rearrange_single_skip.
+    rewrite process_cmds_eq. cbn [fst]. change (wf_state s') with RUNNING.
+    change (is_completed RUNNING) with false. change (state_eqb RUNNING PAUSED) with false. cbv iota.
+    replace (S (S f) - 2) with f by lia.
+    destruct (complete_task sp f (s', []) tid SKIPPED) as [t2 fl]. destruct fl; [|reflexivity].
+    rewrite process_cmds_eq. destruct f; reflexivity. }
+  assert (Hsk : is_skipped SKIPPED = false -> wf_state s' = RUNNING -> chk s' (pend s') []) by (intros E; discriminate E).
+  pose proof (complete_task_W sp Hnj (FUEL sp s' - 2) s' [] tid SKIPPED (NC_weaken _ _ _ N') Hsk eq_refl) as Hc.
+  assert (Hfuel : spec_size sp + length (backlog s') + 3 < FUEL sp s' - 2) by (unfold FUEL; lia).
+  specialize (Hc Hfuel).
+  destruct (backlog s'); rewrite Ed; destruct (complete_task sp (FUEL sp s' - 2) (s', []) tid SKIPPED) as [t2 fl]; destruct fl; cbn [fst snd];
+    try exact Hw; destruct t2 as [sa oa]; cbn [fst snd] in *;
+    rewrite (no_waiting_refresh sa (N_states _ _ _ (proj1 Hc))); rewrite nojoin_check_affected by exact Hnj; apply commit_W; exact Hc.
+Qed.
+End Rerun.
+
 (* ================================================================= the theorem *)
 (* the events of a run that is not rerun / skipped by hand: start, every delivery, duplicated deliveries,
    pause, resume, stop *)
@@ -1672,8 +1906,81 @@ Proof.
   { intros tid r Hk. destruct (N_states _ _ _ Hn tid r Hk) as [H|[H|H]]; [exact H| |].
     - exfalso. destruct (N_idle _ _ _ Hn tid r (Hnone tid) Hk H) as [f [r' [x [_ [Hin|Ha]]]]];
         [rewrite Hp in Hin; destruct Hin|apply (Hno _ Ha)].
-    - exfalso. destruct (N_running _ _ _ Hn tid r (Hnone tid) Hk H) as [aid [a [_ [_ [_ Hap]]]]].
-      destruct Hap as [Hin|[[q Hin]|Ha]]; [rewrite Hp in Hin; destruct Hin|rewrite Hp in Hin; destruct Hin|apply (Hno _ Ha)]. }
+    - exfalso. destruct (N_running _ _ _ Hn tid r (Hnone tid) Hk H) as [[aid [a [_ [_ [_ Hap]]]]]|[reset [Hin|Ha]]].
+      + destruct Hap as [Hin|[[q Hin]|Ha]]; [rewrite Hp in Hin; destruct Hin|rewrite Hp in Hin; destruct Hin|apply (Hno _ Ha)].
+      + rewrite Hp in Hin. destruct Hin.
+      + apply (Hno _ Ha). }
+  split; [exact Htasks|].
+  pose proof (N_live _ _ _ Hn) as Hl.
+  destruct (wf_state s) eqn:Ew; try discriminate Hl; auto.
+  exfalso. destruct (Hchk eq_refl) as [[tid [r [Hk Hnc]]]|[Hcp|[tid [_ [Hin|Ha]]]]].
+  - rewrite (Htasks tid r Hk) in Hnc. discriminate.
+  - apply (Hno _ Hcp).
+  - rewrite Hp in Hin. destruct Hin.
+  - apply (Hno _ Ha).
+Qed.
+
+(* --- with reruns and skips: the events allowed at a state *)
+Definition is_nil {A} (l : list A) : bool := match l with [] => true | _ => false end.
+Definition ok_ev (s : st) (e : ev) : bool :=
+  match e with
+  | ERerun tid _ => Nat.ltb tid (length (tasks s)) && state_eqb (t_state (get_task s tid)) ERROR && is_nil (backlog s)
+  | ESkipTask tid => Nat.ltb tid (length (tasks s)) && is_nil (backlog s)
+  | _ => live_ev e
+  end.
+Fixpoint ok_run (s : st) (evs : list ev) : bool :=
+  match evs with
+  | [] => true
+  | e :: r => ok_ev s e && ok_run (fst (step sp s e)) r
+  end.
+
+Lemma LInv_step_ok s e : ok_ev s e = true -> LInv s -> LInv (fst (step sp s e)).
+Proof.
+  intros He Hs. destruct e; try (apply LInv_step; [exact He|exact Hs]).
+  - (* ERerun *)
+    simpl in He. apply andb_true_iff in He. destruct He as [He Hb]. apply andb_true_iff in He. destruct He as [Hlt Herr].
+    apply Nat.ltb_lt in Hlt. assert (Hbl : backlog s = []) by (destruct (backlog s); [reflexivity|discriminate Hb]).
+    assert (Hst : t_state (get_task s tid) = ERROR) by (destruct (t_state (get_task s tid)); try discriminate Herr; reflexivity).
+    destruct Hs as [[Hc Hp]|Hw]; [unfold step; rewrite Hc; left; split; assumption|].
+    right. apply rerun_W; assumption.
+  - (* ESkipTask *)
+    simpl in He. apply andb_true_iff in He. destruct He as [Hlt Hb]. apply Nat.ltb_lt in Hlt.
+    assert (Hbl : backlog s = []) by (destruct (backlog s); [reflexivity|discriminate Hb]).
+    destruct Hs as [[Hc Hp]|Hw]; [unfold step; rewrite Hc; left; split; assumption|].
+    right. apply skip_W; assumption.
+Qed.
+
+Lemma LInv_ok_run evs : forall s, ok_run s evs = true -> LInv s -> LInv (steps sp s evs).
+Proof.
+  induction evs as [|e evs IH]; intros s He Hs; [exact Hs|].
+  simpl in He. apply andb_true_iff in He. destruct He as [He1 He2].
+  unfold steps. simpl. apply IH; [exact He2|apply LInv_step_ok; assumption].
+Qed.
+
+(* the same with operator reruns of failed tasks and skips (issued while the command backlog is empty):
+   a rerun or skipped run goes on to completion too *)
+Theorem no_stuck_joinfree_ops u evs :
+  ok_run (init_with u) evs = true ->
+  let s := run sp u evs in
+  wf_created s = true -> pend s = [] ->
+  (forall tid r, nth_error (tasks s) tid = Some r -> is_completed (t_state r) = true) /\
+  (is_completed (wf_state s) = true \/ wf_state s = PAUSED).
+Proof.
+  intros He s Hc Hp.
+  assert (Hi : LInv s).
+  { unfold s. rewrite run_steps. apply LInv_ok_run; [exact He|]. left. repeat split; reflexivity. }
+  destruct Hi as [[Hc' _]|[Hn Hchk]]; [congruence|].
+  assert (Hnone : forall n : nat, None <> Some n) by (intros; discriminate).
+  assert (Hno : forall o, ~ op_avail (pend s) [] o).
+  { intros o [[]|[q [Hq _]]]. rewrite Hp in Hq. destruct Hq. }
+  assert (Htasks : forall tid r, nth_error (tasks s) tid = Some r -> is_completed (t_state r) = true).
+  { intros tid r Hk. destruct (N_states _ _ _ Hn tid r Hk) as [H|[H|H]]; [exact H| |].
+    - exfalso. destruct (N_idle _ _ _ Hn tid r (Hnone tid) Hk H) as [f [r' [x [_ [Hin|Ha]]]]];
+        [rewrite Hp in Hin; destruct Hin|apply (Hno _ Ha)].
+    - exfalso. destruct (N_running _ _ _ Hn tid r (Hnone tid) Hk H) as [[aid [a [_ [_ [_ Hap]]]]]|[reset [Hin|Ha]]].
+      + destruct Hap as [Hin|[[q Hin]|Ha]]; [rewrite Hp in Hin; destruct Hin|rewrite Hp in Hin; destruct Hin|apply (Hno _ Ha)].
+      + rewrite Hp in Hin. destruct Hin.
+      + apply (Hno _ Ha). }
   split; [exact Htasks|].
   pose proof (N_live _ _ _ Hn) as Hl.
   destruct (wf_state s) eqn:Ew; try discriminate Hl; auto.
@@ -1725,4 +2032,18 @@ Example no_stuck_after_two_pauses :
   let s := run pause2_sp [1; 0] evs in
   forallb live_ev evs = true /\ pend s = [] /\ length (tasks s) = 2 /\ wf_state s = SUCCESS /\
   wf_state (run pause2_sp [1; 0] (firstn 8 evs)) = PAUSED /\ backlog (run pause2_sp [1; 0] (firstn 8 evs)) = [CRunExisting 0 true false].
+Proof. vm_compute. repeat split. Qed.
+
+(* a failed task is rerun (the new attempt succeeds): the run goes on to SUCCESS *)
+Definition rerun_sp : spec :=
+  [ mkTspec JNone [(TTask 1, GTrue)] [] [] [] [OErr; OOk];
+    mkTspec JNone [] [] [] [] [OOk] ].
+
+Example no_stuck_after_rerun :
+  let evs1 := EStart :: drain_evs rerun_sp (fst (step rerun_sp init EStart)) 50 in
+  let s1 := run rerun_sp [] evs1 in
+  let evs2 := ERerun 0 true :: drain_evs rerun_sp (fst (step rerun_sp s1 (ERerun 0 true))) 50 in
+  let s2 := run rerun_sp [] (evs1 ++ evs2) in
+  wf_state s1 = ERROR /\ pend s1 = [] /\ ok_run rerun_sp init (evs1 ++ evs2) = true /\
+  pend s2 = [] /\ wf_state s2 = SUCCESS /\ length (tasks s2) = 2.
 Proof. vm_compute. repeat split. Qed.
